@@ -127,3 +127,11 @@ BUILT['C15'] = (
     "bit-identical to the 1-D float form), with every wrong length 0..8 (must raise, never None), in scalar-triple vs packed "
     "form, with unit='deg' vs 'rad' (1e-12) for inputs and returned angles, and with misspelt order and unit names (must raise)",
     NOTE, "DESIGN.md 4 C15 + Appendix B")
+BUILT['C16'] = (
+    "differential monitor between the symbolic and the numeric execution of the same real call: every ':SymPy: supported' "
+    "entry (found by reflection, guarded) in every call form and symbol/number mask, substituted at pooled points",
+    "66 call templates cover the 41 API entries whose docstring says ':SymPy: supported' plus pose operators; each is executed "
+    "with symbols in every slot and in every mix with numbers (all 2^n masks up to 4 slots), the output is evaluated at special "
+    "and random angles / translations <= 1e3 and compared with the numeric call to 1e-12; entries that are structurally 0 or 1 "
+    "must stay exact; a symbolic call may not raise where the numeric form is accepted",
+    NOTE, "DESIGN.md 4 C16")
